@@ -236,7 +236,9 @@ def run_one(ch, env):
         for s in secs:
             o = s[3]
             got = s[4]
-            if got is None or not arrays_equal(got, model.asarray()):
+            # a read made while holding the lock must return the model state; an implementation that
+            # legitimately skips the read (tile known to be absent) is judged by the final state alone
+            if s[5] and (got is None or not arrays_equal(got, model.asarray())):
                 res["violation"] = viol(PROP, "stale-or-torn-read", "update #%d (%s) read tile %s while holding the lock but did not obtain the result of the %d updates that released the lock before it (%s)" % (
                     o["uid"], s[2], tuple(positions[pi]), secs.index(s), "no image" if got is None else "pixels differ at %d places" % _ndiff(got, model.asarray())))
                 return res
